@@ -36,7 +36,7 @@ def plan(tier):
 def floors(tier):
     f = {"nontrivial": 60, "held:main": 80, "held:catalogue": 25, "counter:gradient_checks": 250, "counter:gradientIV_checks": 100,
          "counter:jac_checks": 100, "counter:fd_crosschecks": 100, "class:obs-permuted": 15, "class:target_param": 20,
-         "class:target_param-permuted": 8, "class:target_state": 30, "class:weights": 25, "class:weights-zero-mask": 6, "class:weights-1d-single-state": 4,
+         "class:target_param-permuted": 8, "class:target_state": 30, "class:weights": 25, "class:x0-ndarray-shared": 40, "counter:sibling_calls": 80, "class:weights-zero-mask": 6, "class:weights-1d-single-state": 4,
          "class:single-state": 3}
     for k in RL.KINDS:
         f["class:" + k] = 8
@@ -93,8 +93,12 @@ def run_case(rng, idx, tier, lane, ctx):
         d.update(kw)
         wit.append(d)
 
+    if LC.share_caller_arrays(rng, c):
+        cls.append("x0-ndarray-shared")
     try:
         obj = LC.make_loss(c)
+        if c.x0_as_array:
+            counters["sibling_calls"] = LC.disturb_with_sibling(rng, c)
     except Exception as e:
         return {"status": "violated", "sample": sample, "counters": counters, "classes": cls,
                 "witnesses": [{"what": "loss constructor raised on a valid case", "loss": c.kind, "error": short_exc(e), "tb": tb_tail(e)}]}
